@@ -79,6 +79,11 @@ def rule_query_mode(mod, rep):
             rep.scope([h.name])
             atoms = {"pthread_create": {"name": "pthread_create", "args": []}, "__kmpc_fork_call": {"name": "pthread_create", "args": []},
                      "p%sgstrf_thread_finalize" % prec: {"name": "finalize", "args": []}, "p%sgstrf_thread" % prec: {"name": "pthread_create", "args": []}}
+            # thread creation moved into a static helper of p?gstrf: the call of that helper is the creation event
+            from .ext import _owned_helpers
+            for (hh_, call_, g_) in _owned_helpers(mod, h):
+                if any((c_.callee or "") in ("pthread_create", "__kmpc_fork_call") for c_ in hh_.calls()):
+                    atoms[hh_.name] = {"name": "pthread_create", "args": []}
             part = QPart(mod, h, -1, "NO", callee_fail=("p%sgstrf_thread_init" % prec, 6))
             it = Interp(mod, h, part, atoms=atoms)
             it.run()
